@@ -1,4 +1,5 @@
 import Prom.Lemmas.C09Aux
+import Prom.Lemmas.CharsetsGen
 import Prom.Lemmas.GatheredNames
 import Prom.Props.C07
 
@@ -86,6 +87,73 @@ theorem non_ascii_char_refused (cs : List Char) (c : Char) (hc : c ∈ cs) (hna 
         have e4 : (0x80 : UInt8).toNat = 0x80 := by decide
         rw [UInt8.lt_iff_toNat_lt] at hlt; omega
       omega
+
+/-! ### the character classes translated from the source agree with the model
+
+`Prom/Gen/Charsets.lean` is written by `translate/charsets.py` from `src/desc.rs`: every
+`fn _(c: char) -> bool`, the shape of `is_valid_ident` and the predicate each of
+`is_valid_metric_name` / `is_valid_label_name` passes to it, as definitions over `Char` (Unicode scalar
+values). The theorems below tie that output to the hand-written byte-level model used above. -/
+
+/-- **generated_charsets_known** — the translator recognised every construct it met (an unknown
+    method such as `c.is_alphabetic()`, or another shape of `is_valid_ident`, makes this `false`) -/
+theorem generated_charsets_known : Gen.charsetsKnown = true := CharsetsGen.charsets_known
+
+/-- the translated first-character class of label names holds of a character exactly when the
+    character is ASCII and its byte is in the model's `labelStart` (`[a-zA-Z_]`) -/
+theorem generated_label_first_iff (c : Char) :
+    Gen.genLabelFirstOk c = true ↔ c.toNat < 128 ∧ labelStart (UInt8.ofNat c.toNat) = true :=
+  CharsetsGen.label_first_agrees c
+
+/-- … first character of metric names: the model's `metricStart` (`[a-zA-Z_:]`) -/
+theorem generated_metric_first_iff (c : Char) :
+    Gen.genMetricFirstOk c = true ↔ c.toNat < 128 ∧ metricStart (UInt8.ofNat c.toNat) = true :=
+  CharsetsGen.metric_first_agrees c
+
+/-- … later characters of label names: `labelStart` or an ASCII digit (`[a-zA-Z0-9_]`) -/
+theorem generated_label_rest_iff (c : Char) :
+    Gen.genLabelRestOk c = true ↔
+      c.toNat < 128 ∧ (labelStart (UInt8.ofNat c.toNat) || isAsciiDigit (UInt8.ofNat c.toNat)) = true :=
+  CharsetsGen.label_rest_agrees c
+
+/-- … later characters of metric names: `metricStart` or an ASCII digit (`[a-zA-Z0-9_:]`) -/
+theorem generated_metric_rest_iff (c : Char) :
+    Gen.genMetricRestOk c = true ↔
+      c.toNat < 128 ∧ (metricStart (UInt8.ofNat c.toNat) || isAsciiDigit (UInt8.ofNat c.toNat)) = true :=
+  CharsetsGen.metric_rest_agrees c
+
+/-- the translated metric-name validator, run on the characters of a string, is the model's
+    `isValidMetricName` on the bytes of its UTF-8 encoding -/
+theorem generated_metric_ident_agrees (cs : List Char) :
+    Gen.genIdentOk Gen.genMetricFirstOk Gen.genMetricRestOk cs
+      = isValidMetricName (cs.flatMap String.utf8EncodeChar) :=
+  CharsetsGen.metric_ident_agrees cs
+
+/-- … and likewise for label names -/
+theorem generated_label_ident_agrees (cs : List Char) :
+    Gen.genIdentOk Gen.genLabelFirstOk Gen.genLabelRestOk cs
+      = isValidLabelName (cs.flatMap String.utf8EncodeChar) :=
+  CharsetsGen.label_ident_agrees cs
+
+/-- **generated_ident_agrees** — for every string (list of Unicode scalar values), what the code
+    translated from `src/desc.rs` decides about its characters is what the hand-written model decides
+    about its UTF-8 bytes: for metric names and for label names -/
+theorem generated_ident_agrees (cs : List Char) :
+    Gen.genIdentOk Gen.genMetricFirstOk Gen.genMetricRestOk cs
+      = isValidMetricName (cs.flatMap String.utf8EncodeChar) ∧
+    Gen.genIdentOk Gen.genLabelFirstOk Gen.genLabelRestOk cs
+      = isValidLabelName (cs.flatMap String.utf8EncodeChar) :=
+  ⟨generated_metric_ident_agrees cs, generated_label_ident_agrees cs⟩
+
+/-- non-vacuity: the translated validators accept `a:b_9` as a metric name, refuse it as a label
+    name, and refuse a name with a non-ASCII letter or digit -/
+example : Gen.genIdentOk Gen.genMetricFirstOk Gen.genMetricRestOk "a:b_9".toList = true ∧
+    Gen.genIdentOk Gen.genLabelFirstOk Gen.genLabelRestOk "a:b_9".toList = false ∧
+    Gen.genIdentOk Gen.genLabelFirstOk Gen.genLabelRestOk "ab_9".toList = true ∧
+    Gen.genIdentOk Gen.genMetricFirstOk Gen.genMetricRestOk "é".toList = false ∧
+    Gen.genIdentOk Gen.genMetricFirstOk Gen.genMetricRestOk "a٣".toList = false ∧
+    Gen.genIdentOk Gen.genMetricFirstOk Gen.genMetricRestOk "9a".toList = false ∧
+    Gen.genIdentOk Gen.genMetricFirstOk Gen.genMetricRestOk [] = false := by decide +kernel
 
 /-- label names are metric names without `:` — so the same ASCII-only conclusion holds -/
 theorem label_is_metric_name {s : Str} (h : isValidLabelName s = true) : isValidMetricName s = true := by
